@@ -379,8 +379,9 @@ theorem table_looped (name : Str) (cols : List (Str × List Str)) (r : Nat)
       | nil => rw [hR] at hRlen; simp at hRlen; omega
       | cons _ _ => rfl
     have htt : transpose cols.length R = M := transpose_transpose cols.length r M hMrect
+    have hkn : decide keys.Nodup = true := by simpa [keys] using hnodup
     simp only [htw, List.drop_left, hkm, hvm, bind, Except.bind, hkl, hchunk, hRne, htt,
-      Bool.false_eq_true, if_false]
+      Bool.false_eq_true, if_false, hkn, if_true]
     rw [show (cols.length == 0) = false from by simp; omega]
     simp only [Bool.false_eq_true, if_false]
     congr 1
